@@ -59,6 +59,11 @@ def handleC02 : Handler := fun st toks =>
         if probs.any Float.isNaN then some "ERR nan-or-missingTable" else some ("OK " ++ floatsOut probs)
       | none => some "ERR parse"
     | none => some "ERR parse"
+  | "flat" :: n :: a :: la :: b :: lb :: rest =>
+    -- flat <n> <a> <la> <b> <lb> I…  → C-order offset with broadcasting in the shape with la at axis a, lb at axis b
+    let (a, la, b, lb) := (a.toNat!, la.toNat!, b.toNat!, lb.toNat!)
+    let I := (rest.map String.toNat!).toArray
+    some s!"OK {flatUpTo (fun j => if j = a then la else if j = b then lb else 1) (fun j => I.getD j 0) n.toNat!}"
   | _ => none
 
 end VirVerif.Drv
